@@ -160,7 +160,15 @@ impl Hist {
 			}
 			9 => {
 				// an effect inside another effect: the delay must hand init / rate changes on to its feedback effects
-				let b = TrackBuilder::new().with_effect(DelayBuilder::new().delay_time(Duration::from_millis(5)).with_feedback_effect(self.probe("in-delay-feedback")));
+				// (for every line length, including lines whose length in frames is the same at both rates: zero and
+				// sub-frame delay times; and one level deeper, a delay in a delay's feedback loop)
+				let td = [Duration::from_millis(5), Duration::ZERO, Duration::from_micros(10), Duration::from_millis(40)][pick % 4];
+				let inner = self.probe("in-delay-feedback");
+				let b = if pick % 8 < 4 {
+					TrackBuilder::new().with_effect(DelayBuilder::new().delay_time(td).with_feedback_effect(inner))
+				} else {
+					TrackBuilder::new().with_effect(DelayBuilder::new().delay_time(Duration::from_millis(3)).with_feedback_effect(DelayBuilder::new().delay_time(td).with_feedback_effect(inner)))
+				};
 				if let Ok(t) = self.rig.mgr.add_sub_track(b) {
 					self.tracks.push(AnyTrack::Plain(t));
 				}
